@@ -1,4 +1,4 @@
-/* Shared by C10 and C11: medium model, configuration, reference checksums.
+/* Shared by C10 and C11: medium model, configuration, checksum algorithms.
  *
  * Unit under test: src/persistent-storage.c (linked unchanged), CRC from
  * src/crc-16-arc.c (linked unchanged, used behind the checksum callback).
@@ -7,13 +7,20 @@
  *     [m_base, m_base + m_cs + N)      (checksum, then data; no padding)
  * in the callbacks' 32-bit address space and lives in M[GUARD ..); every other
  * octet of M is a guard. The read/write callbacks ASSERT that every access
- * [address, address + n) lies inside the region (computed mathematically, no
- * wrap) and that the caller's buffer can hold n octets.
+ * [address, address + n) lies inside the region and that the caller's buffer
+ * can hold n octets.
  *
- * The data size N is a compile-time parameter of the instance (enumerated by
- * the spec); placement, initial value, order of the configuration calls and
- * the auxiliary-buffer size are symbolic. The checksum kind is symbolic within
- * the instance's set KINDS (bit mask) or fixed by -DKIND=k.
+ * Structure of an instance (measured: symbolic transfer SIZES are what makes
+ * these queries expensive, symbolic contents are cheap):
+ *   - the data size N is a compile-time parameter (enumerated by the spec);
+ *   - checksum kind and auxiliary-buffer size are enumerated INSIDE the
+ *     harness: harness() runs one scenario per (kind in KINDS, aux in AUXSET),
+ *     each with constant kind/aux, all over the same symbolic input;
+ *   - placement (32 bit), initial value, order of the configuration calls,
+ *     medium content, images, offsets and lengths are symbolic.
+ * Because several scenarios run in one query, scenario-dependent conditions
+ * are guards (the scenario is skipped), never VP_ASSUMEs (an assumption made
+ * in one scenario would silently restrict the others).
  *
  * Checksum kinds
  *   0  the library's built-in default ("trivial sum", 16 bit)
@@ -25,7 +32,7 @@
  * Abstract algorithm: a chunk-compositional checksum is a fold
  *     state_0 = init, state_k = step(state_{k-1}, octet_k), result = state_N.
  * For the data image the harness declares "current", the states state_1..N
- * are unconstrained inputs of the instance (that over-approximates every
+ * are unconstrained inputs of the instance (this over-approximates every
  * step function). The callback follows the library through the image: called
  * with the running value state_p and the next n octets of the image it
  * returns state_{p+n}; a calculation may (re)start from state_0 at any time.
@@ -47,35 +54,34 @@
 #ifndef PROP
 #define PROP "C10"
 #endif
+#ifndef KINDS
+#define KINDS 0x1fu                   /* bit k set: run kind k */
+#endif
+#ifndef AUXSET
+#define AUXSET 0xffffffffu            /* bit a set: run auxiliary size a */
+#endif
 
 #define GUARD 2
 #define CSMAX 4                       /* widest checksum */
 #define RMAX (CSMAX + N)              /* largest region */
 #define MSIZE (GUARD + RMAX + GUARD)
 #define AUXMAX (N + 1)
-#define AUXMID ((N + 1) / 2)             /* a buffer that forces chunking */
+#define AUXMID ((N + 1) / 2)          /* a buffer that forces chunking */
+#define NKINDS 5
 
-/* ---- configuration (part of every instance's input) -------------------- */
-struct c10_cfg {
-    uint32_t base;  /* placement of the instance on the medium */
-    uint32_t init;  /* initial value of the checksum algorithm (kinds 1, 2) */
-    uint8_t kind;   /* 0..4, see above */
-    uint8_t order;  /* 0 place after choosing the checksum, 1 place before,
-                     * 2 no persistent_place() call at all (base must be 0) */
-    uint8_t aux;    /* 0 no auxiliary buffer; 1..N+1 buffer of that size */
-};
-
-#ifdef KIND
-#define C10_KIND(c) ((uint8_t)(KIND))
-#define KINDS (1u << (KIND))
-#else
-#define C10_KIND(c) ((c)->kind)
-#ifndef KINDS
-#define KINDS 0x18u
-#endif
-#endif
 #define C10_WIDE(k) ((k) == 2 || (k) == 4)
 #define C10_ABSTRACT(k) ((k) >= 3)
+
+/* ---- configuration ----------------------------------------------------- */
+struct c10_cfg {
+    uint32_t base;  /* placement of the instance on the medium (symbolic) */
+    uint32_t init;  /* initial value of the checksum algorithm (symbolic) */
+    uint8_t order;  /* 0 place after choosing the checksum, 1 place before,
+                     * 2 no persistent_place() call at all (base must be 0) */
+    uint8_t kind;   /* overwritten per scenario with a constant */
+    uint8_t aux;    /* 0 no auxiliary buffer; 1..N+1 buffer of that size;
+                     * overwritten per scenario with a constant */
+};
 
 /* states of the abstract algorithm for one data image (part of the input) */
 struct c10_states {
@@ -92,7 +98,7 @@ static unsigned m_reads, m_writes;
 
 /* C11 controls; everything is off (constant) in the C10 harnesses */
 static int m_fault_at = -1;      /* callback invocation index that fails */
-static size_t m_fault_ret;       /* count it reports (!= requested) */
+static size_t m_fault_ret;       /* count it reports (must differ from the request) */
 static size_t m_fault_xfer;      /* octets it really transfers (<= requested) */
 static bool m_fault_hit;
 static uint8_t m_crash_mode;     /* 0 none, 1 whole-write budget, 2 octet budget */
@@ -100,9 +106,11 @@ static size_t m_budget;          /* write calls / octets that still persist */
 
 static bool c10_in_region(uint32_t address, size_t n)
 {
-    const uint64_t a = address, b = m_base;
-    const uint64_t len = (uint64_t)m_cs + N;
-    return a >= b && n <= len && (a - b) <= len - n;
+    /* the region does not wrap 2^32 (c10_begin), so membership is a 32-bit
+     * offset comparison */
+    const uint32_t off = address - m_base;
+    const uint32_t len = (uint32_t)m_cs + N;
+    return n <= len && off <= len - (uint32_t)n;
 }
 
 static size_t m_read(void *dst, uint32_t address, size_t n)
@@ -110,8 +118,7 @@ static size_t m_read(void *dst, uint32_t address, size_t n)
     const unsigned call = m_calls++;
     size_t xfer = n, ret = n;
     m_reads++;
-    if (m_fault_at >= 0 && call == (unsigned)m_fault_at) {
-        VP_ASSUME(m_fault_ret != n);
+    if (m_fault_at >= 0 && call == (unsigned)m_fault_at && m_fault_ret != n) {
         m_fault_hit = true;
         ret = m_fault_ret;
         xfer = m_fault_xfer < n ? m_fault_xfer : n;
@@ -123,7 +130,7 @@ static size_t m_read(void *dst, uint32_t address, size_t n)
     VP_ASSERT(VP_W_OK(dst, n), PROP ".read-destination-holds-n");
     if (!ok)
         return 0;
-    const size_t idx = GUARD + (size_t)(address - m_base);
+    const size_t idx = GUARD + (size_t)(uint32_t)(address - m_base);
     unsigned char *d = dst;
     for (size_t i = 0; i < xfer; ++i)
         d[i] = M[idx + i];
@@ -135,8 +142,7 @@ static size_t m_write(uint32_t address, const void *src, size_t n)
     const unsigned call = m_calls++;
     size_t xfer = n, ret = n;
     m_writes++;
-    if (m_fault_at >= 0 && call == (unsigned)m_fault_at) {
-        VP_ASSUME(m_fault_ret != n);
+    if (m_fault_at >= 0 && call == (unsigned)m_fault_at && m_fault_ret != n) {
         m_fault_hit = true;
         ret = m_fault_ret;
         xfer = m_fault_xfer < n ? m_fault_xfer : n;
@@ -160,7 +166,7 @@ static size_t m_write(uint32_t address, const void *src, size_t n)
     VP_ASSERT(VP_R_OK(src, n), PROP ".write-source-holds-n");
     if (!ok)
         return 0;
-    const size_t idx = GUARD + (size_t)(address - m_base);
+    const size_t idx = GUARD + (size_t)(uint32_t)(address - m_base);
     const unsigned char *s = src;
     for (size_t i = 0; i < xfer; ++i)
         M[idx + i] = s[i];
@@ -232,7 +238,7 @@ static uint32_t cb_abs32(const unsigned char *d, size_t n, uint32_t s)
  * image (img must be the image declared by c10_current). */
 static uint32_t c10_ref(const struct c10_cfg *c, const uint8_t *img)
 {
-    switch (C10_KIND(c)) {
+    switch (c->kind) {
     case 0: {
         uint32_t s = 0;
         for (size_t i = 0; i < N; ++i)
@@ -252,7 +258,7 @@ static uint32_t c10_ref(const struct c10_cfg *c, const uint8_t *img)
  * with the abstract states st; harmless for the concrete kinds */
 static void c10_current(const struct c10_cfg *c, const uint8_t *img, const struct c10_states *st)
 {
-    const bool wide = C10_WIDE(C10_KIND(c));
+    const bool wide = C10_WIDE(c->kind);
     a_img = img;
     a_st[0] = wide ? c->init : (uint16_t)c->init;
     for (size_t k = 0; k < N; ++k)
@@ -287,11 +293,6 @@ static void c10_put_stored(uint32_t sum)
     }
 }
 
-static uint8_t *c10_data(void)
-{
-    return &M[GUARD + m_cs];
-}
-
 /* copy of the N data octets that are on the medium now */
 static void c10_get_data(uint8_t *img)
 {
@@ -299,11 +300,26 @@ static void c10_get_data(uint8_t *img)
         img[i] = M[GUARD + m_cs + i];
 }
 
+static void c10_put_data(const uint8_t *img)
+{
+    for (size_t i = 0; i < N; ++i)
+        M[GUARD + m_cs + i] = img[i];
+}
+
 static bool c10_data_is(const uint8_t *img)
 {
     bool same = true;
     for (size_t i = 0; i < N; ++i)
         if (M[GUARD + m_cs + i] != img[i])
+            same = false;
+    return same;
+}
+
+static bool c10_same(const uint8_t *a, const uint8_t *b)
+{
+    bool same = true;
+    for (size_t i = 0; i < N; ++i)
+        if (a[i] != b[i])
             same = false;
     return same;
 }
@@ -329,36 +345,58 @@ static bool c10_medium_same(const uint8_t *before)
     return same;
 }
 
-static void c10_load_medium(const uint8_t *content)
+static void c10_snapshot(uint8_t *to)
 {
     for (size_t i = 0; i < MSIZE; ++i)
-        M[i] = content[i];
+        to[i] = M[i];
 }
 
-/* ---- instance set-up --------------------------------------------------- */
+/* ---- scenario set-up --------------------------------------------------- */
 #ifndef VP_REPLAY
 static unsigned char c10_auxarr[AUXMAX];
 #endif
 static unsigned char *c10_aux;
 
+/* input-wide assumptions (independent of the scenario) */
 static void c10_assume_cfg(const struct c10_cfg *c)
 {
-    VP_ASSUME(C10_KIND(c) <= 4 && ((KINDS >> C10_KIND(c)) & 1u));
     VP_ASSUME(c->order <= 2);
     VP_ASSUME(c->order != 2 || c->base == 0);
-    VP_ASSUME(c->aux <= AUXMAX);
-    m_cs = C10_WIDE(C10_KIND(c)) ? 4 : 2;
-    /* the region does not wrap the medium's 32-bit address space */
-    VP_ASSUME((uint64_t)c->base + m_cs + N <= 0x100000000ull);
+}
+
+static bool c10_selected(unsigned kind, unsigned aux)
+{
+    return ((KINDS >> kind) & 1u) && ((AUXSET >> aux) & 1u);
+}
+
+/* Start a scenario: constant kind and aux into the configuration, medium and
+ * stub state reset, medium content loaded. Returns false if the scenario
+ * does not apply to this input (the region would wrap the address space). */
+static bool c10_begin(struct c10_cfg *c, uint8_t kind, uint8_t aux, const uint8_t *content)
+{
+    c->kind = kind;
+    c->aux = aux;
+    m_cs = C10_WIDE(kind) ? 4 : 2;
+    if ((uint64_t)c->base + m_cs + N > 0x100000000ull)
+        return false;
     m_base = c->base;
-    if (c->aux != 0 && c10_aux == NULL) {
+    m_calls = m_reads = m_writes = 0;
+    m_fault_at = -1;
+    m_fault_hit = false;
+    m_crash_mode = 0;
+    m_budget = 0;
+    a_lost = false;
+    a_pos = 0;
+    for (size_t i = 0; i < MSIZE; ++i)
+        M[i] = content[i];
 #ifdef VP_REPLAY
-        c10_aux = malloc(c->aux); /* exact extent, visible to ASan */
+    free(c10_aux);
+    c10_aux = aux ? malloc(aux) : NULL; /* exact extent, visible to ASan */
 #else
-        /* the buffer ends exactly after `aux` octets */
-        c10_aux = c10_auxarr + (AUXMAX - c->aux);
+    /* the buffer ends exactly after `aux` octets */
+    c10_aux = aux ? c10_auxarr + (AUXMAX - aux) : NULL;
 #endif
-    }
+    return true;
 }
 
 /* a fresh instance with the configuration c (public API only) */
@@ -367,13 +405,13 @@ static void c10_instance(PersistentStorage *s, const struct c10_cfg *c)
     persistent_init(s, N, m_read, m_write);
     if (c->order == 1)
         persistent_place(s, c->base);
-    if (C10_KIND(c) == 1)
+    if (c->kind == 1)
         persistent_sum16(s, cb_crc16, (uint16_t)c->init);
-    else if (C10_KIND(c) == 2)
+    else if (c->kind == 2)
         persistent_sum32(s, cb_sum32, c->init);
-    else if (C10_KIND(c) == 3)
+    else if (c->kind == 3)
         persistent_sum16(s, cb_abs16, (uint16_t)c->init);
-    else if (C10_KIND(c) == 4)
+    else if (c->kind == 4)
         persistent_sum32(s, cb_abs32, c->init);
     if (c->order == 0)
         persistent_place(s, c->base);
